@@ -14,6 +14,7 @@
   entered) and `.ret n result inCreationAfterwards ranEarlyFactory` (a call on n returned).
 -/
 import IocProofs.Lemmas.Registry
+import IocProofs.Lemmas.RegistryRest
 import IocProofs.Lemmas.M2RefinesM1
 import Ioc.RegistrySkel
 import Ioc.Generated.Facts
@@ -319,5 +320,56 @@ theorem C04_code_startCreate (d : Sem.DCC) (hc : Sem.dccConsistent d) :
   refine ⟨_, _, Sem.doCreateComponent_sem d hc, ?_⟩
   unfold Sem.createDecision
   cases hx : (d.singleton && d.allow && d.inCrOf d.n) <;> simp only [hx] <;> (repeat' split) <;> simp_all
+
+/-! ### clean failure at every nesting depth (the registry at rest)
+
+  `C04_clean_failure` speaks about the name whose creation failed.  An error usually passes through SEVERAL creations
+  (the innermost one fails — e.g. a name without definition was asked for — and every enclosing creation fails with that
+  error).  The statement for all of them at once: whenever no creation is running, levels 2 and 3 are EMPTY. -/
+
+/-- Every history that starts at rest (no creation running; e.g. the fresh registry) ends at rest, and then there is no
+    early reference and no early-reference factory in the registry at all — of no name, whatever failed inside the history,
+    at whatever depth, through however many enclosing creations the error passed.  Hence every lookup afterwards (early
+    references allowed or not) answers from the published instances alone — an object only if its creation completed —,
+    changes nothing and runs no factory: a half-built instance is never returned as if it had been created. -/
+theorem C04_rest_clean (r : Reg) (hi : r.Inv) (h0 : ∀ k, k ∉ r.inCr) (as : List Act) :
+    let r' := (execs r as).1
+    (∀ k, k ∉ r'.inCr) ∧ (∀ n, r'.l2? n = none ∧ n ∉ r'.l3) ∧
+    (∀ n b e, r'.get n b e = (.ok (r'.l1? n), r') ∧ r'.runsEarly n b = false) := by
+  intro r'
+  obtain ⟨hc, hl⟩ := execs_rest r hi h0 as
+  exact ⟨hc, hl, fun n b e => (execs_inv r hi as).rest_get hc n b e⟩
+
+/-- … in particular for every history on the fresh registry (what a factory issues between two calls of its public API). -/
+theorem C04_rest_clean_fresh (as : List Act) :
+    let r' := (execs Reg.empty as).1
+    (∀ k, k ∉ r'.inCr) ∧ (∀ n, r'.l2? n = none ∧ n ∉ r'.l3) ∧
+    (∀ n b e, r'.get n b e = (.ok (r'.l1? n), r') ∧ r'.runsEarly n b = false) :=
+  C04_rest_clean Reg.empty inv_empty (by simp) as
+
+/-- The marks after an operation tree are among the marks before it: every creation drops its own mark on both exits. -/
+theorem C04_marks_dropped (r : Reg) (k : Name) (as : List Act) (h : k ∈ (execs r as).1.inCr) : k ∈ r.inCr :=
+  execs_inCr_sub r k as h
+
+/-- What dropping ONLY the mark on the failure path would do to an enclosing creation (a seeded change did this whenever
+    the error's cause chain contained "unknown name", which is true of every creation the error passes through): the
+    early-reference factory of 1 stays in level 3 while 1 is no longer in creation, and the next lookup runs it and returns
+    the half-built object; the real failure path (`endCreate` = RemoveSingleton) answers nil. -/
+theorem C04_clean_failure_needs_remove_nested :
+    let body := (exec (Reg.empty.startCreate 1) (.getOrCreate 2 (.error .fail) [] (.error .fail))).1
+    let bad : Reg := { body with inCr := sdel 1 body.inCr }
+    let good := body.endCreate 1 (.error .fail)
+    Ret.ofGet (bad.get 1 true (.ok ⟨1, 7⟩)).1 = .obj ⟨1, 7⟩ ∧ bad.isInCreation 1 = false ∧
+    Ret.ofGet (good.get 1 true (.ok ⟨1, 7⟩)).1 = .none ∧ good = Reg.empty := by
+  decide
+
+/-- non-vacuity: the failure chain of an unknown name through three enclosing creations (one of which had handed out its
+    early reference), then lookups of all of them: nil, and the registry is the fresh one -/
+example : (execs Reg.empty [.getOrCreate 1 (.error .fail) [.getOrCreate 2 (.error .fail)
+              [.lookup 1 true (.ok ⟨1, 0⟩), failChain .fail 3 [4]] (.error .fail)] (.error .fail),
+            .lookup 1 true (.ok ⟨1, 0⟩), .lookup 2 true (.ok ⟨2, 0⟩), .lookup 3 false (.error .fail)]) =
+    (Reg.empty, [.begin 1, .begin 2, .ret 1 (.obj ⟨1, 0⟩) true true, .begin 3, .begin 4, .ret 4 .err false false,
+      .ret 3 .err false false, .ret 2 .err false false, .ret 1 .err false false,
+      .ret 1 .none false false, .ret 2 .none false false, .ret 3 .none false false]) := by decide
 
 end Ioc.C04
